@@ -207,11 +207,21 @@ class Sym:
         if kind == "ArraySubscriptExpr":
             return self.expr(n["inner"][0], env, lambda env, a: self.expr(n["inner"][1], env, lambda env, i: k(env, ("op", "byteat", [self.rval(env, a), i]))))
         if kind == "UnaryExprOrTypeTraitExpr":
-            return k(env, ("unknown", "sizeof"))
+            # sizeof of a character array object (or type): its element count
+            t = ""
+            if n.get("name") == "sizeof":
+                sub = [c for c in n.get("inner", []) if isinstance(c, dict)]
+                t = qtype(strip(sub[0])) if sub else (n.get("argType", {}).get("desugaredQualType") or n.get("argType", {}).get("qualType") or "")
+                while sub and not t and sub[0].get("inner"):
+                    sub = [sub[0]["inner"][0]]; t = qtype(sub[0])
+            m = re.fullmatch(r"(?:const\s+)?(?:unsigned\s+|signed\s+)?char\s*\[(\d+)\]", t.strip())
+            return k(env, ("int", int(m.group(1))) if m else ("unknown", "sizeof"))
         if kind == "CallExpr":
             return self.call(n, env, k)
         if kind == "ConditionalOperator":
-            return k(env, ("unknown", "?:"))
+            # c ? a : b  ==  if (c) v = a; else v = b;
+            ci, ai, bi = n["inner"][0], n["inner"][1], n["inner"][2]
+            return self.expr(ci, env, lambda env, c: self.branch(self.truth(env, c), env, lambda e: self.expr(ai, e, k), lambda e: self.expr(bi, e, k)))
         return k(env, ("unknown", "expr " + str(kind)))
 
     def rval_ptr(self, env, v):
@@ -642,7 +652,8 @@ def loop_consts(run):
     notes = run.notes
     ea = strip_comments(run.src("src/datasource/env_all.c"))
     b = func_body(ea, "snoopy_datasource_env_all") or ""
-    m = re.search(r"\(\s*i\s*>\s*1\s*\)\s*&&\s*\(\s*remResultSize\s*>=\s*(\d+)\s*\)", b)
+    # "not in front of the first entry": a counter incremented at the top of the loop compared with 1, or the walking pointer compared with environ
+    m = re.search(r"\(\s*(?:i\s*>\s*1|\w+\s*!=\s*environ|environ\s*!=\s*\w+)\s*\)\s*&&\s*\(\s*remResultSize\s*>=\s*(\d+)\s*\)", b)
     v["ea_comma_min"] = int(m.group(1)) if m else None
     m = re.search(r"resultBuf\s*\[\s*resultSize\s*\]\s*=\s*'(.)'\s*;", b)
     v["ea_sep"] = m.group(1).encode() if m else None
